@@ -281,11 +281,57 @@ class DuplexSys(HSystem):
         ctx.eq('C04/duplex/state', self.lanes(o) or (0,) * 25, tuple(o['ref'].S))
 
 
+class RateSys(HSystem):
+    """one sponge object whose rate is reconfigured with setrate() between plain calls and calls with a per-call rate"""
+    depth = {'quick': 4, 'thorough': 5}
+
+    def __init__(self, b, r, rates):
+        self.b, self.r0, self.rates = b, r, rates
+
+    def fresh(self):
+        from crysp.keccak import Keccak
+        return {'o': Keccak(b=self.b, r=self.r0, len=24), 'r': self.r0, 'exp': None}
+
+    def canon(self, o):
+        from mc.engine import canon as gcanon
+        return (gcanon(o['o']), o['r'])
+
+    def events(self, o):
+        return [('setrate', x) for x in self.rates] + [('call', 13), ('call-rate', self.rates[0]), ('call-rate', self.rates[1]), ('call-rate-raising', self.rates[0])]
+
+    def apply(self, o, ev):
+        k, x = ev
+        if k == 'setrate':
+            o['r'] = x
+            o['exp'] = None
+            return o['o'].setrate(x)
+        m = expander(9, 21)
+        if k == 'call':
+            o['exp'] = RK.keccak(self.b, o['r'], m, x, 24, nist=True)
+            return o['o'](m, bitlen=x)
+        if k == 'call-rate':
+            o['exp'] = RK.keccak(self.b, x, m, 13, 24, nist=True)
+            return o['o'](m, bitlen=13, r=x)
+        o['exp'] = 'raises'
+        return o['o'](m, bitlen=999, r=x)
+
+    def judge(self, ctx, hist, ev, res, o):
+        if ev[0] == 'setrate':
+            return
+        if o['exp'] == 'raises':
+            ctx.eq('C04/keccak/bitlen-beyond-data-accepted', res[0], 'exc')
+            return
+        ctx.eq('C04/keccak/call-after-rate-reconfigurations', res, ('ok', o['exp']))
+
+
 def systems(tier):
     geos = [(25, 9), (200, 40), (1600, 1027), (1600, 1088)]
     if tier == 'thorough':
         geos += [(50, 3), (400, 144), (800, 576)]
-    return {'%d-%d' % g: DuplexSys(*g) for g in geos}
+    d = {'%d-%d' % g: DuplexSys(*g) for g in geos}
+    d['rates-200'] = RateSys(200, 40, (16, 72, 100))
+    d['rates-1600'] = RateSys(1600, 1088, (576, 1344, 1027))
+    return d
 
 
 def selftest():
@@ -310,7 +356,7 @@ def subchecks():
             bound='outputs of 65545 and 70001 bits for (b,r) in {(1600,1001),(1600,1027),(800,129)} (thorough + (200,41),(1600,1531),(400,9))'),
         Sub('fips202', pts_fips, run_fips, engine='P',
             bound='SHA3-224/256/384/512 on every byte length 0..2 rate-blocks+1 (quick: every 3rd + the rate boundaries), SHAKE128/256 at 256 bits on every length (quick: every 5th) and 4 output lengths on 6 lengths vs hashlib; module singletons keccak_224..512 on 10 lengths'),
-        hsub('duplex', systems, 3, bound='Keccak(b,r) for (25,9),(200,40),(1600,1027),(1600,1088) (+3 in thorough): events duplex(m, bitlen in {0,1,8,r-2}, outlen in {1,r}) two plain sponge calls with a bit length, two sponge calls with a per-call rate, and assignments to the duplexing / outlen attributes; all sequences to depth 3 vs a reference duplex object; state = 25 lanes'),
+        hsub('duplex', systems, 3, bound='Keccak(b,r) for (25,9),(200,40),(1600,1027),(1600,1088) (+3 in thorough): events duplex(m, bitlen in {0,1,8,r-2}, outlen in {1,r}) two plain sponge calls with a bit length, two sponge calls with a per-call rate, and assignments to the duplexing / outlen attributes; all sequences to depth 3 vs a reference duplex object; state = 25 lanes; two more systems (b=200, b=1600) with setrate(3 rates), a plain call, calls with two per-call rates and a refused call, all sequences to depth 4 (thorough 5)'),
     ]
 
 
